@@ -11,6 +11,15 @@ CHECKS = {
  "C03": ("exploration", "proptest-driven generated conversations with generated writer-API programs; model-based oracle (abstract interpreter of the program vs. reference response state machine), sentinel PING after every command",
          "Generated search over finite programs of the writer API (chains, zero-column sets, drops, errors after rows, shape-contradicting rows) embedded in command sequences under generated read/write chunkings; the decoded response must equal the abstract interpretation of the program, with the more-results flag on every unit but the last, and a sentinel PING after every command must get exactly one OK with sequence id 1.",
          "Trusts the reference response state machine (written from the protocol documentation) and the program interpreter; documented misuse (dropping a fresh writer, dropping a RowWriter mid-row) is not generated."),
+ "C04": ("exploration", "enumerated boundary sizes k*(2^24-1)+d x assemblies plus proptest-generated sizes; round-trip oracle through an independent packet framer and value decoder",
+         "Every listed size around 1x and 2x (2^24-1) is realised by several assemblies (text row with cell boundaries before/at/after the limit, binary row, ERR message, huge column name) and the raw output is re-framed by an independent splitter/reassembler: the message must arrive as one logical message of exactly the intended bytes. Thousands of generated small/medium sizes cover the length-encoding classes.",
+         "Sizes beyond ~2*(2^24-1) are not explored; trusts the reference framer (its reassembly rule is the documented one)."),
+ "C05": ("exploration", "proptest-generated conversations with generated request sequence ids and long responses; invariant oracle over every physical packet",
+         "Every packet of every reply is checked against last_request_id+1+i mod 256, for request ids over 0-255 (255 favoured), responses of up to ~1100 packets and enumerated multi-fragment requests.",
+         "Requests whose own fragments wrap past id 255 are outside the domain (C20 covers them)."),
+ "C12": ("exploration", "proptest-generated conversations x arrival schedules (lock-step via an embedded reference client, pipelined, partial chunkings); safety invariant evaluated at every read() of the scripted transport",
+         "The liveness-sounding statement is decided as a safety invariant at the only point the server can wait (a read() call): all wholly received commands must already be answered in bytes covered by the last flush(). In lock-step mode the transport only releases the next command when the previous reply was decoded from flushed bytes, so a missing flush shows as 'would block forever'.",
+         "Blocking in-memory transport stands in for a socket; plaintext only."),
 }
 NOT_YET = {}
 
